@@ -10,7 +10,7 @@ def knobs(r, i):
 
 def run(v, tier, seed, replay):
     cases, impl, model = seqcheck.run(v, tier, seed, replay, "C01", ["C01", "E2E"], tree_oracles=["no_panic", "exactly_once", "tree", "ids"], knobs=knobs,
-                 n_quick=(600, 150), n_thorough=(60000, 10000),
+                 n_quick=(1800, 450), n_thorough=(60000, 10000),
                  assumptions=["'within about one report interval' is wall-clock: the background collector is `loop { cycle; sleep(interval) }`, one cycle suffices by C01_cycle_reports_everything_once; the interval itself is measured by the C18 tier, not proved",
                               "omissions permitted by C09 (full queue, per-scope limits) do not occur in these programs"])
     if not replay and not v.violations:
